@@ -172,12 +172,14 @@ func vfWhitelistAllows(o vfOrigin, entries []string) (bool, bool) {
 		switch {
 		case strings.HasPrefix(eh, "*."):
 			hostOK = strings.HasSuffix(o.Host, eh[1:]) && len(o.Host) > len(eh[1:])
-			if o.Host == eh[2:] {
+			// the bare domain, and the name with an empty first label (".good.test": not a resolvable name, and inside the
+			// whitelisted domain's own name space if it were) are not judged
+			if o.Host == eh[2:] || o.Host == eh[1:] {
 				either = true
 			}
 		case strings.HasPrefix(eh, "."):
 			hostOK = strings.HasSuffix(o.Host, eh) && len(o.Host) > len(eh)
-			if o.Host == eh[1:] {
+			if o.Host == eh[1:] || o.Host == eh {
 				either = true
 			}
 		default:
